@@ -68,6 +68,11 @@ def run(ctx) -> None:
         _finally_blocks(ctx, u)
         _no_reuse(ctx, u)
     _aexit_falsy(ctx)
+    from . import c05
+    ctx.rule("R06.5", "never deferred: no item or computed result is held back across a further pull of the source "
+                      "(a failure of that pull would otherwise suppress an item the stdlib delivers first) (R05.1)")
+    for short in c05.TOOLS:
+        c05.r05_1(ctx, ctx.unit(short), "R06.5")
     ctx.floor("handlers", 22)
     ctx.floor("aexit_methods", 5)
 
